@@ -123,7 +123,7 @@ UNIT = dict(
     dict(id='hp_number_of_hps', file=HPI, sig=r'constexpr size_t number_of_hps\(\) const', c_sig='static size_t hp_tcb_number_of_hps(const struct tcb* self)',
          subst=[(r'Strategy::K', 'XV_K', 'K')], must_fire={'subst:K': 1}),
     dict(id='hp_tcb_abandon', file=HPI, sig=r'void abandon\(\)', which=0, c_sig='static void hp_tcb_abandon(struct tcb* self)',
-         subst=[(r'Strategy::number_of_active_hps', 'number_of_active_hps', 'counter'), (r'\bself\(\)\.', 'self->', 'self_fn'),
+         subst=[(r'Strategy::number_of_active_hps', 'number_of_active_hps', 'counter'), (r'Strategy::K\b', 'XV_K', 'K'), (r'\bself\(\)\.', 'self->', 'self_fn'),
                 (r'detail::thread_block_list<Derived>::entry::abandon\(\)', 'te_abandon(self)', 'base_abandon')],
          methods={'number_of_hps': 'HP_TCB_number_of_hps'}, must_fire={'A_FSUB': 1, 'subst:base_abandon': 1, 'method:number_of_hps': 1}),
     td_common(id='hp_add_retired_node', file=HPI, sig=r'std::size_t add_retired_node\(detail::deletable_object\* p\)', c_sig='static size_t hp_add_retired_node(struct td* self, struct node* p)',
@@ -166,7 +166,7 @@ UNIT = dict(
     dict(id='he_number_of_hes', file=HEI, sig=r'constexpr size_t number_of_hes\(\) const', c_sig='static size_t he_tcb_number_of_hes(const struct tcb* self)',
          subst=[(r'Strategy::K', 'XV_K', 'K')], must_fire={'subst:K': 1}),
     dict(id='he_tcb_abandon', file=HEI, sig=r'void abandon\(\)', which=0, c_sig='static void he_tcb_abandon(struct tcb* self)',
-         subst=[(r'Strategy::number_of_active_hes', 'number_of_active_hes', 'counter'), (r'\bself\(\)\.', 'self->', 'self_fn'),
+         subst=[(r'Strategy::number_of_active_hes', 'number_of_active_hes', 'counter'), (r'Strategy::K\b', 'XV_K', 'K'), (r'\bself\(\)\.', 'self->', 'self_fn'),
                 (r'detail::thread_block_list<Derived, detail::deletable_object_with_eras>::entry::abandon\(\)', 'te_abandon(self)', 'base_abandon')],
          methods={'number_of_hes': 'HE_TCB_number_of_hes'}, must_fire={'A_FSUB': 1, 'subst:base_abandon': 1, 'method:number_of_hes': 1}),
     td_common(id='he_add_retired_node', file=HEI, sig=r'std::size_t add_retired_node\(detail::deletable_object_with_eras\* p\)', c_sig='static size_t he_add_retired_node(struct td* self, struct node* p)',
@@ -190,7 +190,7 @@ UNIT = dict(
     dict(id='hp_dyn_number_of_hps', file=HPI, sig=r'\] size_t number_of_hps\(\) const', c_sig='static size_t hp_dyn_number_of_hps(const struct tcb* self)',
          members=['total_number_of_hps'], must_fire={'member:total_number_of_hps': 1}),
     dict(id='hp_initialize', file=HPI, sig=r'void initialize\(hint& hint\)', which=0, c_sig='static void hp_tcb_initialize(struct tcb* self, struct slot** hint_p)',
-         subst=[(r'Strategy::number_of_active_hps', 'number_of_active_hps', 'counter'), (r'\bself\(\)\.', 'self->', 'self_fn'), (r'\bself\(\)', '(*self)', 'self_fn2'), (r'\bhint\b', '(*hint_p)', 'hint_ref')],
+         subst=[(r'Strategy::number_of_active_hps', 'number_of_active_hps', 'counter'), (r'Strategy::K\b', 'XV_K', 'K'), (r'\bself\(\)\.', 'self->', 'self_fn'), (r'\bself\(\)', '(*self)', 'self_fn2'), (r'\bhint\b', '(*hint_p)', 'hint_ref')],
          methods={'number_of_hps': 'HP_TCB_number_of_hps'}, calls={'initialize_block': 'XV_INIT_BLOCK'}, must_fire={'A_FADD': 1, 'method:number_of_hps': 1, 'call:initialize_block': 1}),
     dict(id='hp_allocate_block', file=HPI, sig=r'hazard_pointer\* allocate_new_hazard_pointer_block\(\)', c_sig='static struct slot* hp_allocate_new_block(struct tcb* self)',
          pre_subst=[(r'size_t buffer_size = [^;]*;\s*void\* buffer = [^;]*;\s*auto block = ::new \(buffer\) hazard_pointer_block\(hps\);', 'auto block = XV_NEW_BLOCK(hps);', 'new_block')],
@@ -200,7 +200,7 @@ UNIT = dict(
     dict(id='he_dyn_number_of_hes', file=HEI, sig=r'\] size_t number_of_hes\(\) const', c_sig='static size_t he_dyn_number_of_hes(const struct tcb* self)',
          members=['total_number_of_hes'], post_subst=[(r'total_number_of_hes', 'total_number_of_hps', 'member_alias')], must_fire={'member:total_number_of_hes': 1}),
     dict(id='he_initialize', file=HEI, sig=r'void initialize\(hint& hint\)', which=0, c_sig='static void he_tcb_initialize(struct tcb* self, struct slot** hint_p)',
-         subst=[(r'Strategy::number_of_active_hes', 'number_of_active_hes', 'counter'), (r'\bself\(\)\.', 'self->', 'self_fn'), (r'\bself\(\)', '(*self)', 'self_fn2'), (r'\bhint\b', '(*hint_p)', 'hint_ref')],
+         subst=[(r'Strategy::number_of_active_hes', 'number_of_active_hes', 'counter'), (r'Strategy::K\b', 'XV_K', 'K'), (r'\bself\(\)\.', 'self->', 'self_fn'), (r'\bself\(\)', '(*self)', 'self_fn2'), (r'\bhint\b', '(*hint_p)', 'hint_ref')],
          methods={'number_of_hes': 'HE_TCB_number_of_hes'}, calls={'initialize_block': 'XV_INIT_BLOCK'}, must_fire={'A_FADD': 1, 'method:number_of_hes': 1, 'call:initialize_block': 1}),
     dict(id='he_allocate_block', file=HEI, sig=r'hazard_era\* allocate_new_hazard_eras_block\(\)', c_sig='static struct slot* he_allocate_new_block(struct tcb* self)',
          pre_subst=[(r'size_t buffer_size = [^;]*;\s*void\* buffer = [^;]*;\s*auto block = ::new \(buffer\) hazard_eras_block\(hes\);', 'auto block = XV_NEW_BLOCK(hes);', 'new_block')],
